@@ -165,6 +165,13 @@ Example c08_example_caller_ctx :
   (30 <=? List.length (filter (fun a => has (ca_callee a) blocking_callees) ctx_args))%nat = true.
 Proof. vm_compute. repeat split; reflexivity. Qed.
 
+(* single-send channels: the dispatch loops that hand a response / call ack / reply call to the
+   waiting requester through its 1-slot channel delete the requester's registration from the map
+   BEFORE the send (so a duplicated message finds no entry and the send never waits) *)
+Theorem c08_single_send_channels : single_send_ok waits = true.
+Proof. vm_compute. reflexivity. Qed.
+Print Assumptions c08_single_send_channels.
+
 (* no stale rows in the hand-written table *)
 Theorem c08_wait_table_used : table_used wait_protocols waits = true.
 Proof. vm_compute. reflexivity. Qed.
